@@ -210,7 +210,8 @@ def case_features(case, objs=None) -> List[str]:
             if n[0] in ("not", "forall"):
                 return under(n[2], inside)
             if n[0] == "sub":
-                return under(n[3], inside)
+                # (a sub-query mentions the variables it selects, also when its condition does not)
+                return (inside and bool(set(n[2]) & empty_vars)) or under(n[3], inside)
             return inside and bool(A.cond_vars(n) & empty_vars)
         if under(c, False):
             f.add("empty_domain_under_disjunction")
